@@ -101,7 +101,7 @@ def run(tier="quick", only_key=None):
                 for label, kw, signs, spd in rs:
                     key = f"{cls.qual}#D={D},Nparity={parity},{label}"
                     at = loc(cls.find("_build_linear_operator"))
-                    o = it.call(cls, catalog.positional_args(cls, D), kw)
+                    o = catalog.construct(it, cls, catalog.positional_args(cls, D), kw)
                     integ = o.f["_integrator"]
                     Dv = C.deriv(D, as_poly(o.f["domain_extent"]))
                     lin = it.call(cls.find("_build_linear_operator"), [o, Tens((D,) + (N,) * (D - 1) + (H_of(parity),), Dv)])
